@@ -660,6 +660,18 @@ func (c *Ctx) assertObligation(fname string, x *ssa.TypeAssert) {
 	// (b) content invariant of the system dictionary literal / the Resources dictionary
 	if lk, ok := origin(x.X).(*ssa.Lookup); ok {
 		if key, isC := constString(stripConv(lk.Index)); isC {
+			// the dictionary returned by makeSystemDict binds the key to a value of the asserted type:
+			// decided on the sequence of map updates the constructor performs (ext_x1.go)
+			if call, ok := origin(lk.X).(*ssa.Call); ok && call.Call.StaticCallee() != nil && call.Call.StaticCallee() == c.fn("postscript", "makeSystemDict") {
+				if dc := c.constructedDictContent(call.Call.StaticCallee()); dc.decided {
+					if t := dc.typ[key]; t != nil && types.Identical(t, x.AssertedType) {
+						c.ok("PANIC-ASSERT", fname, construct, x.Pos(), "the dictionary returned by makeSystemDict binds this key to a value of this type (the constructor's map updates, evaluated)", "")
+						return
+					}
+					c.rep.add(Obligation{Rule: "PANIC-ASSERT", Func: fname, Construct: construct, Pos: c.pos(x.Pos()), Status: stViolation, Kind: "undecided", Detail: "type assertion without `, ok`: the dictionary returned by makeSystemDict does not bind this key to a value of the asserted type"})
+					return
+				}
+			}
 			// literal built by makeSystemDict binds the key to a value of the asserted type
 			if e := c.registry().byKey["systemdict/"+key]; e != nil && e.typ != nil && types.Identical(e.typ, x.AssertedType) {
 				if call, ok := origin(lk.X).(*ssa.Call); ok && call.Call.StaticCallee() == c.fn("postscript", "makeSystemDict") {
@@ -671,6 +683,10 @@ func (c *Ctx) assertObligation(fname string, x *ssa.TypeAssert) {
 	}
 	if c.resourcesInvariant(x) {
 		c.ok("PANIC-ASSERT", fname, construct, x.Pos(), "Interpreter.Resources holds only Dict values: written only by NewInterpreter with Dict literals, never boxed or stored elsewhere", "")
+		return
+	}
+	if c.assertEstablishedBySearch(x) {
+		c.ok("PANIC-ASSERT", fname, construct, x.Pos(), "the element was found by a search whose predicate holds only behind a successful `, ok` assertion of the same map entry to this type; nothing is written in between", "")
 		return
 	}
 	c.rep.add(Obligation{Rule: "PANIC-ASSERT", Func: fname, Construct: construct, Pos: c.pos(x.Pos()), Status: stViolation, Kind: "undecided", Detail: "type assertion without `, ok` on a value whose dynamic type is not established: it panics when the value has another type"})
@@ -798,7 +814,7 @@ func (c *Ctx) mapNonNil(v ssa.Value, at ssa.Instruction, seen map[ssa.Value]bool
 			return typeIsNamed(ta.AssertedType, c.typeObj("postscript", "Dict"))
 		}
 		if call, ok := x.Tuple.(*ssa.Call); ok {
-			return c.returnsNonNilMap(call, x.Index) || c.returnsNonNilMapUnlessError(call, x.Index, at)
+			return c.returnsNonNilMap(call, x.Index) || c.returnsNonNilMapUnlessError(call, x.Index, at) || c.returnsNonNilMapWhen(call, x.Index, at)
 		}
 	case *ssa.TypeAssert:
 		return typeIsNamed(x.AssertedType, c.typeObj("postscript", "Dict"))
@@ -1246,7 +1262,6 @@ func (c *Ctx) recursionGates(fns []*ssa.Function, reach map[*ssa.Function]bool) 
 		}
 	}
 	execFn := reg.op("systemdict", "exec")
-	eexecFn := reg.op("systemdict", "eexec")
 	gated := func(e cgEdge) (string, bool) {
 		if e.site == nil {
 			return "", false
@@ -1267,8 +1282,12 @@ func (c *Ctx) recursionGates(fns []*ssa.Function, reach map[*ssa.Function]bool) 
 			if why, ok := c.frameGated(ia, e); ok {
 				return why, true
 			}
-		case e.from == eexecFn && e.to == ia.execScanner:
-			return "nested eexec is refused by BeginEexec (rule L3-EEXEC)", true
+		case e.to == ia.execScanner && com.StaticCallee() == ia.execScanner && e.from != c.method("postscript", "Interpreter", "Execute"):
+			// whoever holds the call (the eexec operator or a part split off it): the re-entry is reached
+			// only behind a successful BeginEexec of the scanner that is executed
+			if sa := scannerArgOf(e.site); sa != nil && c.behindBeginEexec(e.site, sa, 2) {
+				return "nested eexec is refused by BeginEexec (rule L3-EEXEC)", true
+			}
 		case e.from == execFn && com.StaticCallee() == nil && !com.IsInvoke():
 			// direct call of an operator object: one operand was popped before, nothing is pushed in between
 			popped := false
@@ -1363,7 +1382,7 @@ func (c *Ctx) recursionGates(fns []*ssa.Function, reach map[*ssa.Function]bool) 
 	} else {
 		c.ok("RECURSE", "reader call graph", "every call-graph cycle passes a gate", token.NoPos, fmt.Sprintf("%d functions, %d edges, %d gate edges removed, remainder acyclic", len(fns), len(edges), ngated), "")
 	}
-	c.eexecNesting(ia)
+	c.eexecNestingX1(ia)
 }
 
 // ---------------------------------------------------------------- loops
@@ -1409,6 +1428,9 @@ func (c *Ctx) loopClasses(fns []*ssa.Function) {
 			}
 			class, detail := c.classifyLoop(fn, h, body, ia)
 			construct := "loop at " + loopShape(c, h)
+			if s := c.loopShapeX1(h, body); s != "" {
+				construct = "loop at " + s // the same name for every spelling of "while the slice is not empty"
+			}
 			if class != "" {
 				classes[class]++
 				c.ok("LOOP", fname, construct, firstPos(h), class+": "+detail, "")
@@ -1525,6 +1547,19 @@ func (c *Ctx) classifyLoop(fn *ssa.Function, h *ssa.BasicBlock, body map[*ssa.Ba
 		for _, ins := range b.Instrs {
 			if st, ok := ins.(*ssa.Store); ok && isFieldAddr(st.Addr, ia.T, "NumOps") {
 				return true
+			}
+			// the counting moved into a helper: every path through the helper counts the operation
+			if call, ok := ins.(ssa.CallInstruction); ok {
+				if g := call.Common().StaticCallee(); g != nil && c.inModule(g) && mustPassBlock(g, func(b2 *ssa.BasicBlock) bool {
+					for _, i2 := range b2.Instrs {
+						if st, ok := i2.(*ssa.Store); ok && isFieldAddr(st.Addr, ia.T, "NumOps") {
+							return true
+						}
+					}
+					return false
+				}, 2) {
+					return true
+				}
 			}
 		}
 		return false
